@@ -94,8 +94,21 @@ fn main() {
             let out = arg(&args, "--out", "out");
             replay::replay_stdin(&prop, dbg, profile, max_fail, &out);
         }
+        "replay-hist" => {
+            let prop = args.get(2).expect("usage: replay-hist <PROP> --out DIR").clone();
+            let out = arg(&args, "--out", "out");
+            let shards: usize = arg(&args, "--shards", "6").parse().expect("shards");
+            let per: usize = arg(&args, "--per", "5").parse().expect("per");
+            replay::replay_hist_stdin(&prop, dbg, profile, &out, shards, per);
+        }
+        "replay-iter" => {
+            let prop = args.get(2).expect("usage: replay-iter <PROP> --out DIR").clone();
+            let out = arg(&args, "--out", "out");
+            let shards: usize = arg(&args, "--shards", "6").parse().expect("shards");
+            replay::replay_iter_stdin(&prop, dbg, profile, &out, shards);
+        }
         _ => {
-            eprintln!("usage: bva-verif-harness drive|replay ...");
+            eprintln!("usage: bva-verif-harness drive|replay|replay-hist|replay-iter ...");
             std::process::exit(2);
         }
     }
